@@ -465,6 +465,24 @@ func c11Cases(c *Check) []c11Case {
 			add(fmt.Sprintf("negative/after-%s/sep=%q", hexKey(before), sp), []gtok{mkIdent("x"), bt, mkNegNum("5"), mkOp(")"), mkIdent("e")}, []string{" ", sp, "", " "})
 		}
 	}
+	// tokens far to the right and far down: columns beyond 16 and 17 bits (one long line made of a long literal, a
+	// long comment or a long run of blanks), rows beyond 16 bits
+	for _, w := range []int{255, 256, 32767, 32768, 65535, 65536, 70000, 131072} {
+		add(fmt.Sprintf("far-right/after-literal/%d", w), []gtok{mkIdent("v"), mkOp("="), mkStr(strings.Repeat("d", w), 0), mkOp(")"), mkIdent("far"), mkNum("7")}, []string{" ", " ", "", " ", " "})
+		add(fmt.Sprintf("far-right/after-blanks/%d", w), []gtok{mkIdent("v"), mkIdent("w"), mkOp("+"), mkNum("1")}, []string{strings.Repeat(" ", w), " ", ""})
+		add(fmt.Sprintf("far-right/after-comment/%d", w), []gtok{mkIdent("v"), mkIdent("w"), mkNL(false), mkIdent("n")}, []string{"/*" + strings.Repeat("c", w) + "*/", "", ""})
+	}
+	for _, h := range []int{255, 256, 32768, 65535, 65536, 70000} {
+		toks := []gtok{mkIdent("top")}
+		seps := []string{}
+		for i := 0; i < h; i++ {
+			toks = append(toks, mkNL(false))
+			seps = append(seps, "")
+		}
+		toks = append(toks, mkIdent("low"), mkOp("="), mkNum("1"))
+		seps = append(seps, "", " ", " ")
+		add(fmt.Sprintf("far-down/%d", h), toks, seps)
+	}
 	add("negative/at-start", []gtok{mkNegNum("12"), mkOp("+"), mkNum("1")}, []string{" ", " "})
 	for _, before := range []gtok{mkIdent("a"), mkNum("3"), mkOp(")"), mkOp("]"), mkStr("s", 0), mkKw("true"), mkKw("nil")} {
 		for _, sp := range [][2]string{{"", ""}, {" ", ""}, {"", " "}, {" ", " "}} {
